@@ -758,6 +758,7 @@ func run(c *hlib.Ctx) {
 		s.try("sdfhist", s.sdfhist)
 		s.try("sharediter", func() { s.sharedIter(n) })
 		s.try("sharedrender", func() { s.sharedRender(n) })
+		s.try("sharedderive", func() { s.sharedDerive(n) })
 		if !s.race {
 			s.try("meshiter3", func() { s.meshIter(3) })
 			s.try("meshiter2", func() { s.meshIter(2) })
@@ -779,6 +780,8 @@ func run(c *hlib.Ctx) {
 				fam := fam
 				s.try("nestsolid2", func() { s.nestsolid2(fam) })
 			}
+			s.try("nestderive3", s.nestDerive3)
+			s.try("nestderive2", s.nestDerive2)
 			s.try("rendersched", s.renderSched)
 			s.try("nestcache", s.nestcache)
 			if r%10 == 0 {
